@@ -16,13 +16,14 @@ THEOREMS = ["C07_plan_covers_requested_columns", "C13_solve_wellFormed", "C13_so
             "released_range_below", "reach_one_column", "C07_ranges_below_single_column", "generateCell_not_null", "C07_no_nulls_single_column",
             "TInvO.sub_comb", "C07_ranges_below_partial", "C07_no_nulls_partial",
             "columnHull_spec", "nullMapping_above", "forest_init_columns", "forestData_value", "forest_column_without_nulls",
-            "C07_no_nulls_single_column_init", "C07_no_nulls_partial_init", "buildTable_cells_for", "C07_noClustering_no_nulls"]
+            "C07_no_nulls_single_column_init", "C07_no_nulls_partial_init", "buildTable_cells_for", "C07_noClustering_no_nulls",
+            "scaleValue_nonneg", "fitColumn_nonneg", "fitColumn_no_null", "fitTable_cell", "C07_synthesize_noClustering_no_nulls"]
 PARTIAL = ["totality (that sample() completes) is not a Lean theorem: the composed model `buildTable` reproduces sample() value for value (S-sampleN) "
            "and the schema clause is proved of it (C07_buildTable_columns: the assembled table has exactly the plan's columns; with "
            "C13_solve_wellFormed / C07_plan_covers_requested_columns: every input column once); cells: decoded per kind, nulls only from the "
            "null range, strings verbatim-or-mask (C11), and through build_table for any cluster plan every cell fits the convertor of its own column (C07_table_domains); "
            "'nulls only in columns that had nulls': proved for one-column clusters (C07_no_nulls_single_column: every cluster under NoClustering) and, for clusters of several columns, "
-           "for columns none of whose values lies beyond the column's final root range (C07_no_nulls_partial); that the stand-in lies above the values and the snapped range holds them is proved of Forest.__init__ for every column without nulls and with non-negative values (forest_column_without_nulls; C07_no_nulls_single_column_init, and through build_table for the whole NoClustering plan: C07_noClustering_no_nulls, from Forest.init on); that normalised values are non-negative is not composed in; pandas (astype) and scikit-learn (scaler, RFECV) are outside the model; sample() is run "
+           "for columns none of whose values lies beyond the column's final root range (C07_no_nulls_partial); that the stand-in lies above the values and the snapped range holds them is proved of Forest.__init__ for every column without nulls and with non-negative values (forest_column_without_nulls; C07_no_nulls_single_column_init, and through build_table for the whole NoClustering plan: C07_noClustering_no_nulls, from Forest.init on); and from the typed input table: C07_synthesize_noClustering_no_nulls (normalised values are non-negative: fitColumn_nonneg); pandas (astype) and scikit-learn (scaler, RFECV) are outside the model; sample() is run "
            "on every generated table under every strategy and its schema, dtypes and cell domains are checked",
            "known finding: RecursionError for float columns holding two values closer than ~2^-900 of the column range (C07 recursion-depth-add_row)",
            "known finding F14: synthesis raises ValueError when one cluster's microtable is empty while the table so far is not (raises-empty-cluster); "
